@@ -28,7 +28,8 @@ theorem sites_covered : GenCompile.mapRangeSites = sites.map (·.1) := by decide
 /-- The integer conversions in compile/ are the ones the model performs: `wrap16` in
 `gatherFields` and `wrap32` in `gatherEnumItems` (both after a bounds check, so they are the
 identity on what passes), `doubleOfInt` in `castInt`; the `int64(…)` conversions are widenings
-used by the range checks and the enum lookup. -/
+used by the range checks and the enum lookup; those of `scalarKey` (the duplicate check of set and
+map constants, finding D81) are identities / widenings into comparison keys (`SKey`). -/
 theorem conversions_ok : GenCompile.conversions =
     [("constant_value.go", "ConstantInt.Link", "float64(c)"),
      ("constant_value.go", "ConstantInt.Link", "int64(c)"),
@@ -37,6 +38,9 @@ theorem conversions_ok : GenCompile.conversions =
      ("constant_value.go", "ConstantInt.Link", "int64(item.Value)"),
      ("constant_value.go", "ConstantInt.inRange", "int64(c)"),
      ("constant_value.go", "ConstantInt.inRange", "int64(c)"),
+     ("constant_value.go", "scalarKey", "float64(x)"),
+     ("constant_value.go", "scalarKey", "int64(x)"),
+     ("constant_value.go", "scalarKey", "int64(x.Item.Value)"),
      ("enum.go", "compileEnum", "int32(value)"),
      ("field.go", "compileField", "int16(src.ID)")] := by decide
 
